@@ -111,7 +111,7 @@ func allChecks() []*Check {
 				{Pkg: "client", Func: "VerifC20Password", ValSet: true, Quick: map[string]int{"PL": 2, "R": 2}, Thorough: map[string]int{"PL": 4, "R": 3}, Asserts: []string{"password-not-in-log", "pass-line-masked"}, Note: "several sessions on one client (welcomed, disconnected, reconnected)"},
 				{Pkg: "client", Func: "VerifC20Password", ValSet: true, Quick: map[string]int{"PL": 1, "LONG": 1}, Thorough: map[string]int{"PL": 2, "LONG": 1}, Asserts: []string{"password-not-in-log"}, Note: "password of 521..524 bytes"},
 			},
-			Bounds:      map[string]string{"quick": "passwords of 1..3 symbolic bytes over a 16-symbol alphabet (3-9 # $ ~ ^ _ = + @ ?) disjoint from the library's own log texts, plus a space anywhere but first (and 1 symbolic byte behind a 520-byte filler); one whole session per path: dial ok / refused, negotiation on/off, tracking on/off, flood control off (Flood=true), the k-th socket write failing (k = none,0..3), three received lines (a NOTICE, the 001 welcome, a malformed line), Close; the same with 2 sessions in a row on one client (passwords 1..2 bytes); every format string and every string / error argument of every logger call is inspected", "thorough": "passwords up to 6 symbolic bytes; 3 sessions in a row with passwords up to 4 bytes"},
+			Bounds:      map[string]string{"quick": "passwords of 1..3 symbolic bytes over a 16-symbol alphabet (3-9 # $ ~ ^ _ = + @ ?) disjoint from the library's own log texts, plus a space anywhere but first (and 1 symbolic byte behind a 520-byte filler); one whole session per path: dial ok / refused, negotiation on/off, tracking on/off, flood control off (Flood=true), the k-th socket write failing (k = none,0..3), three received lines (a NOTICE, the 001 welcome, a malformed line), Close; a REGISTER handler that leaves Config.Pass alone / wipes it / replaces it; a peer that reads at once or only after Connect returned; the same with 2 sessions in a row on one client (passwords 1..2 bytes); every format string and every string / error argument of every logger call is inspected", "thorough": "passwords up to 6 symbolic bytes; 3 sessions in a row with passwords up to 4 bytes"},
 			Outside:     []string{"passwords that are substrings of texts the library logs anyway (e.g. '*')", "loggers that look at non-string arguments", "error texts produced by the real network stack (the dialler is a stub)"},
 			Stubs:       []string{"proxy dialler stub, in-memory wire, bufio model, coroutine scheduler (goroutines run until they block)"},
 			QuickBudget: 5 * time.Minute, ThorBudget: 30 * time.Minute,
@@ -121,9 +121,10 @@ func allChecks() []*Check {
 			Harnesses: []Harness{
 				{Pkg: "client", Func: "VerifC19Negotiation", Asserts: []string{"requests-exactly-wanted-and-advertised", "end-on-empty-intersection", "end-after-nak", "held-iff-acked", "end-after-ack-without-sasl", "not-held-after-minus-ack", "sasl-starts-after-ack-only", "sasl-payload-after-server-asked", "end-after-sasl-outcome", "end-after-later-ack"}},
 				{Pkg: "client", Func: "VerifC19History", Quick: map[string]int{"K": 2}, Thorough: map[string]int{"K": 3}, Asserts: []string{"end-after-every-reply", "held-iff-latest-ack-enabled"}, Note: "arbitrary sequences of later ACK / -cap / NAK replies against a model"},
+				{Pkg: "client", Func: "VerifC19History", Quick: map[string]int{"K": 2, "SASL": 1}, Thorough: map[string]int{"K": 3, "SASL": 1}, Asserts: []string{"end-after-every-reply", "held-iff-latest-ack-enabled"}, Note: "the same with SASL configured but never offered; replies may name -sasl"},
 				{Pkg: "client", Func: "VerifC19Split", Asserts: []string{"split-every-name-once", "split-names-intact-in-order", "split-line-within-limit"}},
 			},
-			Bounds:      map[string]string{"quick": "universe of 2 symbolic capability names (1..2 bytes) + sasl; every subset wanted / advertised / acknowledged, NAK, later ACK of -cap; SASL none / PLAIN / EXTERNAL with credentials of 0..1 symbolic bytes and outcomes 903/904/908 (real go-sasl clients and an exact base64 model); request splitting with 4 names of lengths 220, 216..224, 1..3, 440; histories: after LS, any 2 later replies, each an ACK naming any subset of the two capabilities plain or with '-', in either order, or a NAK of any subset, against a latest-ACK-wins model", "thorough": "histories of 3 replies"},
+			Bounds:      map[string]string{"quick": "universe of 2 symbolic capability names (1..2 bytes) + sasl; every subset wanted / advertised / acknowledged, NAK, later ACK of -cap; SASL none / PLAIN / EXTERNAL with credentials of 0..1 symbolic bytes and outcomes 903/904/908 (real go-sasl clients and an exact base64 model); request splitting with 4 names of lengths 220, 216..224, 1..3, 440; histories: after LS, any 2 later replies, each an ACK naming any subset of the two capabilities plain or with '-', in either order, or a NAK of any subset, against a latest-ACK-wins model, also with SASL configured but not offered and replies that name -sasl", "thorough": "histories of 3 replies"},
 			Outside:     []string{"CAP LS continuation lines and capability values (sasl=PLAIN)", "larger universes, longer credentials", "SASL exchanges with further server challenges"},
 			Stubs:       []string{"encoding/base64 StdEncoding: exact symbolic model", "sort.Strings model", "go-sasl executed from its own SSA"},
 			QuickBudget: 5 * time.Minute, ThorBudget: 30 * time.Minute,
@@ -138,7 +139,7 @@ func allChecks() []*Check {
 				{Pkg: "client", Func: "VerifC18LongPing", Asserts: []string{"pong-same-token", "one-line-received"}},
 				{Pkg: "client", Func: "VerifC18Keepalive", Asserts: []string{"monitor:ping-goroutine-started", "monitor:no-ping-goroutine", "monitor:one-ping-per-tick"}},
 			},
-			Bounds: map[string]string{"quick": "registration: CAP negotiation on/off, password 0..2 bytes, nick/ident/name 1..2 bytes (all bytes but CR/LF), tracking on/off; dial: host 1..2 ASCII bytes, without port / with :port (0..2 digits) / bracketed IPv6 with port, SSL on/off, dial ok/refused, through a harness proxy dialer; PING tokens 0..3 bytes as trailing or middle parameter, with/without source, and a 4200..4202-byte token through the real recv loop; PingFreq any value in [-5, 2^40]; entry points: 2 connects in a row on one client through any of Connect / ConnectContext / ConnectTo(host) / ConnectTo(host, pass) / ConnectToContext, password 0..1 bytes, negotiation on/off",
+			Bounds: map[string]string{"quick": "registration: CAP negotiation on/off, password 0..2 bytes, nick/ident/name 1..2 bytes (all bytes but CR/LF), tracking on/off; dial: host 1..2 ASCII bytes, without port / with :port (0..2 digits) / bracketed IPv6 with port, SSL on/off, dial ok/refused, through a harness proxy dialer, with the server and the SSL switch set before the client is built or on Config() afterwards; PING tokens 0..3 bytes as trailing or middle parameter, with/without source, and a 4200..4202-byte token through the real recv loop; PingFreq any value in [-5, 2^40]; entry points: 2 connects in a row on one client through any of Connect / ConnectContext / ConnectTo(host) / ConnectTo(host, pass) / ConnectToContext, password 0..1 bytes, negotiation on/off",
 				"thorough": "host up to 5 bytes, tokens up to 8 bytes, 4 connects in a row"},
 			Outside:     []string{"the direct (non-proxy) dial path and real TLS (the dialler and the handshake are stubs)", "bare or port-less bracketed IPv6 literals", "the tick period in real time; the PING payload text (fmt.Sprintf is a stub)", "tokens longer than the bound (lines beyond bufio's buffer are covered by C01's delivery harness)"},
 			Stubs:       []string{"x/net/proxy.FromURL dispatches to the harness dialer registered for scheme vtest", "crypto/tls.Client + Handshake: fails", "time.NewTicker: N queued ticks", "context model", "fmt.Sprintf arbitrary text"},
@@ -148,10 +149,10 @@ func allChecks() []*Check {
 			ID: "C17", Title: "The client always knows its own current nick",
 			Harnesses: []Harness{
 				{Pkg: "client", Func: "VerifC17Step", Quick: map[string]int{"NL": 2}, Thorough: map[string]int{"NL": 4},
-					Asserts: []string{"asks-for-generated-nick", "config-me-non-nil", "me-non-nil", "me-is-servers-nick", "no-unprompted-nick-change", "unaffected-by-old-nick-holder"}},
+					Asserts: []string{"asks-for-generated-nick", "generator-consulted-once-per-collision", "config-me-non-nil", "me-non-nil", "me-is-servers-nick", "no-unprompted-nick-change", "unaffected-by-old-nick-holder"}},
 				{Pkg: "client", Func: "VerifC17NewNick", Asserts: []string{"same-length", "same-prefix", "last-byte-differs"}},
 			},
-			Bounds:      map[string]string{"quick": "one server event {433 before the welcome, 001 same/different nick with/without nick!user@host, own NICK (both parameter forms), 433 after the welcome, NICK of another user} from any state satisfying 'Me().Nick = server's nick'; nicks 1..2 symbolic bytes; tracking on/off; default and custom (uninterpreted) generator; DefaultNewNick for all byte strings of length 1..3", "thorough": "nicks 1..4 bytes"},
+			Bounds:      map[string]string{"quick": "one server event {433 before the welcome, 001 same/different nick with/without nick!user@host, own NICK (both parameter forms), 433 after the welcome, NICK of another user} from any state satisfying 'Me().Nick = server's nick'; nicks 1..2 symbolic bytes; tracking on/off; default generator and a custom one that is not a pure function (a different nick on every call: it must be consulted once per collision); DefaultNewNick for all byte strings of length 1..3", "thorough": "nicks 1..4 bytes"},
 			Outside:     []string{"longer nicks, more than one other tracked user", "non-conformant servers (433 before the welcome for a nick other than the pending one; renaming onto a nick in use)"},
 			Stubs:       []string{"goroutines run to completion", "sync.* ghost models; sync.Pool: Get returns the most recently Put object (recycling is the adversarial legal behaviour)"},
 			Assumptions: []string{"server conformance as stated in the property"},
